@@ -22,7 +22,7 @@ LEVEL_TEXT = ("Partial: the table/name/day-number clauses and four structural id
               "~9000 literals is read from MIR and checked; key sets are compared with the enum's variants). The numeric core - solar geometry against spherical "
               "astronomy, agreement of the tables with the radiation model - is NOT decided by this family.")
 LEVEL_NOTE = "Trusted: rustc MIR constant evaluation; the structural recogniser of vec! literals."
-TECHNIQUE = "literal/decision-table extraction from MIR + normalised-expression comparison"
+TECHNIQUE = "literal/decision-table extraction from MIR + normalised-expression comparison (incl. sun position with trigonometric identities, 6 quadrant cases) + argument-role agreement on f32 angle parameters"
 FIXTURE_EXPECT = ["c20.names"]
 
 
@@ -183,6 +183,7 @@ def run(ctx):
     # ---------------- D4
     check_radiation(ctx, prog)
     check_sun_position(ctx, prog)
+    check_argument_roles(ctx, prog)
 
 
 def check_keyset(ctx, rule, label, keys, variants, st):
@@ -473,6 +474,48 @@ def check_sun_position(ctx, prog, rule="c20.sunpos"):
                       % ("<" if cs == "neg" else ">", {1: ">", 0: "=", -1: "<"}[ss], str(gotz)[:160], str(w_)[:120], len(bad)), zf.loc())
     else:
         ctx.ok(rule, rule + "|azimuth", "azimuth = quadrant-corrected inverse sine of cos d sin h / cos(alt) in all 6 sign cases of (cos(180-az), sin(az))", zf.loc())
+
+
+ROLE_WORDS = ("tilt", "azimuth", "latitude", "longitude", "albedo", "declination", "hourangle", "altitude", "zenith")
+
+
+def _role(name):
+    nm = (name or "").lower().replace("_", "")
+    hits = [r for r in ROLE_WORDS if r in nm]
+    if "azimuth" in nm and "sol" in nm:
+        return "sol-azimuth"
+    return hits[0] if len(hits) == 1 else None
+
+
+def check_argument_roles(ctx, prog, rule="c20.rad"):
+    """all the angles of the solar model are f32: the compiler cannot tell a tilt from an azimuth.  Wherever a function of the climate crate is called with an
+    argument that is itself a parameter or field named after one of the model's quantities, that name must be the quantity the callee's parameter is named after"""
+    from ..mir import callee_id
+    n = 0
+    for f in sorted(prog.fns.values(), key=lambda f: f.id):
+        if f.crate not in ("climate", "bemodel") or f.raw.get("impl_derived"):
+            continue
+        eb = None
+        for b, t in f.body.calls():
+            cid = callee_id(t)
+            if cid not in prog.fns or prog.fns[cid].crate != "climate":
+                continue
+            cal = prog.fns[cid]
+            eb = eb or ExprBuilder(f.body)
+            for i, a in enumerate(t["args"]):
+                pn = cal.body.names.get(i + 1)
+                an = leaf_name(strip(eb.operand(a)))
+                ra, rp = _role((an or "").split(".")[-1]), _role(pn)
+                if not (ra and rp):
+                    continue
+                n += 1
+                if ra != rp:
+                    ctx.violation(rule, "%s|argument-role|%s->%s|%s" % (rule, f.path.split("::")[-1], cal.path.split("::")[-1], pn),
+                                  "%s passes `%s` (a %s) where %s expects `%s` (a %s): both are f32, so this compiles, and the surface or sun the callee computes with is not the one "
+                                  "the caller describes" % (f.path.split("::")[-1], an, ra, cal.path.split("::")[-1], pn, rp), f.loc(t.get("ln")))
+    ctx.floor(rule, "named angle arguments passed to climate functions", n, 30)
+    if not any(i.rule == rule and "|argument-role|" in i.key and i.verdict == "violation" for i in ctx.instances):
+        ctx.ok(rule, rule + "|argument-roles", "%d arguments named after a quantity of the model (tilt, azimuth, latitude, ...) go to the callee parameter of the same name" % n, None)
 
 
 def check_radiation(ctx, prog, rule="c20.rad"):
